@@ -140,6 +140,26 @@ fn merge2<const S_OLD: u8, const S_NEW: u8>() {
     std::mem::forget(a);
 }
 
+/// Three actions merged left to right: unconditional, conditional, conditional.  The second
+/// conditional rule replaces the first one entirely (including the fallback it had inherited).
+#[kani::proof]
+#[kani::unwind(5)]
+fn c05_merge3_uncond_cond_cond() {
+    let a0 = sym(b'o', true, false, false);
+    let a1 = sym(b'm', true, true, false);
+    let a2 = sym(b'n', true, true, false);
+    let mut a = action_of(&a0);
+    a.merge(action_of(&a1));
+    a.merge(action_of(&a2));
+    let c: u16 = kani::any();
+    let got = a.get_status_code(c, None);
+    let want = if admits(a2.code, a2.exclude, c, true) { a2.status } else { 0 };
+    assert!(got == want);
+    kani::cover!(got != 0 && c != 0);
+    kani::cover!(got == 0 && c != 0);
+    std::mem::forget(a);
+}
+
 macro_rules! merge_harness {
     ($name:ident, $o:expr, $n:expr) => {
         #[kani::proof]
